@@ -37,6 +37,9 @@ type Plan struct {
 	Assumptions []string
 	RealStub   map[string][]string
 	MinimiseBudget int
+	// RaceEpisodes further episodes (indices Episodes ... Episodes+RaceEpisodes-1) run in the race world, RaceBatch per process.
+	RaceEpisodes int
+	RaceBatch    int
 }
 
 // Finding is an entry of known_findings.json.
@@ -152,11 +155,18 @@ func RunCheck(p Property, opt Options) int {
 			for j := range jobs {
 				var scs []*scen.Scenario
 				for i := j.from; i < j.to; i++ {
-					scs = append(scs, p.Gen(opt.Seed, i, opt.Tier))
+					gi := i
+					if i >= plan.Episodes {
+						gi = -(i - plan.Episodes + 1) // race-world episodes are numbered -1, -2, ...
+					}
+					scs = append(scs, p.Gen(opt.Seed, gi, opt.Tier))
 				}
 				to := 30 * time.Second
 				if len(scs) > 1 {
 					to = 120 * time.Second
+				}
+				if len(scs) > 0 && scs[0].World.Race {
+					to = 300 * time.Second
 				}
 				runs := env.Exec(scs, to)
 				for k, sc := range scs {
@@ -169,6 +179,18 @@ func RunCheck(p Property, opt Options) int {
 		}()
 	}
 	go func() {
+		// the race worlds are slow to start: queue them first so that they overlap with the plain episodes
+		rb := plan.RaceBatch
+		if rb <= 0 {
+			rb = 1
+		}
+		for i := plan.Episodes; i < plan.Episodes+plan.RaceEpisodes; i += rb {
+			to := i + rb
+			if to > plan.Episodes+plan.RaceEpisodes {
+				to = plan.Episodes + plan.RaceEpisodes
+			}
+			jobs <- job{i, to}
+		}
 		for i := 0; i < plan.Episodes; i += batch {
 			if !deadline.IsZero() && time.Now().After(deadline) {
 				break
